@@ -15,3 +15,9 @@ mod c16;
 mod c17;
 #[cfg(kani)]
 mod c18;
+#[cfg(kani)]
+mod c04;
+#[cfg(kani)]
+mod c15;
+#[cfg(all(kani, feature = "python"))]
+mod c20;
